@@ -64,10 +64,35 @@ func c03CopyMove() []explore.Event {
 	}
 }
 
+// c03Shared: one message lives in two mailboxes (its flags are shared, its \Deleted mark is per mailbox) and each
+// mailbox is open in a different session, so that every flag change made in one mailbox reaches the other
+// session as an update about a message it holds too.
+func c03Shared() []explore.Event {
+	return []explore.Event{
+		ev("cmd", 0, `STORE 1 +FLAGS (\Deleted)`),
+		ev("cmd", 0, `STORE 1 -FLAGS (\Deleted)`),
+		ev("cmd", 0, `STORE 1 +FLAGS (kw1)`),
+		ev("cmd", 0, `EXPUNGE`),
+		ev("reselect", 0),
+		ev("cmd", 1, `STORE * +FLAGS (kw2)`),
+		ev("cmd", 1, `STORE * -FLAGS (\Seen)`),
+		ev("cmd", 1, `STORE * +FLAGS (\Deleted)`),
+		ev("cmd", 1, `EXPUNGE`),
+	}
+}
+
+var c03SharedInit = map[string][]mbox.InitMsg{
+	"INBOX": {{Key: "a", Flags: []string{`\Seen`}}, {Key: "b"}},
+	"m2":    {{Key: "d"}, {Key: "a", Flags: []string{`\Seen`}}},
+}
+
 func c03Families(d int) []explore.Family {
+	shared := c03Fam("shared-message", d+1, []string{"INBOX", "m2"}, c03Shared())
+	shared.Params = C03P{mbox.C03Params{Sel: []string{"INBOX", "m2"}, Mailboxes: []string{"m2", "m3"}, Init: c03SharedInit, Alphabet: c03Shared()}}
 	return []explore.Family{
 		c03Fam("store-expunge", d, []string{"INBOX", "INBOX"}, c03StoreExpunge()),
 		c03Fam("copy-move", d, []string{"INBOX", "m2"}, c03CopyMove()),
+		shared,
 	}
 }
 
